@@ -295,6 +295,28 @@ static void do_op(const char *op, int a, int b, const char *text)
         sim_phase(1); int r = SIM_char_arr_len_bufferify(names, a, b, a); sim_phase(0); res_int(r); free(names);
     }
 #ifndef SIMC
+    else if (!strcmp(op, "str_ptr_in") || !strcmp(op, "str_val_in")) {
+        char *buf = fbuf(text, a);
+        sim_phase(1);
+        int r = op[4] == 'p' ? SIM_str_ptr_in_bufferify(buf, (int)len_trim(buf, a)) : SIM_str_val_in_bufferify(buf, (int)len_trim(buf, a));
+        sim_phase(0); res_int(r); free(buf);
+    }
+    else if (!strcmp(op, "char_ret_len")) {
+        char *buf = exact(30);
+        sim_phase(1); SIM_char_ret_len_bufferify(a, buf, 30); sim_phase(0); res_str(buf, 30); free(buf);
+    }
+    else if (!strcmp(op, "char_ret_null")) { sim_phase(1); SIM_char_ret_null_bufferify(a, &d); fetch_string(&d); }
+    else if (!strcmp(op, "vec_iota_d")) {
+        double *v = (double *)exact(sizeof(double) * a); for (int i = 0; i < a; i++) v[i] = -7.0;
+        sim_phase(1); SIM_vec_iota_d_bufferify(&d); SIM_ShroudCopyArray(&d, v, a); sim_phase(0);
+        double s = 0; for (int i = 0; i < a; i++) s += v[i];
+        res_arr(a, (long)(s * 2)); free(v);
+    }
+    else if (!strcmp(op, "box_release")) {
+        sim_phase(1); SIM_SHROUD_memory_destructor((SIM_SHROUD_capsule_data *)&bx[a]); sim_phase(0); res_none();
+    }
+#endif
+#ifndef SIMC
     else if (!strcmp(op, "ref_item")) { sim_phase(1); SIM_ref_item(&h[a]); sim_phase(0); res_none(); }
 #endif
 #ifndef SIMC
